@@ -62,3 +62,22 @@ pub fn verif_b64_decode_or_invalid(s: &str) -> (r: Result<Vec<u8>>)
 pub assume_specification<T, E> [std::result::Result::<T, E>::unwrap_or] (r: std::result::Result<T, E>, default: T) -> (o: T)
     where E: std::marker::Destruct, T: std::marker::Destruct,
     ensures r matches Ok(v) ==> o == v, r is Err ==> o == default;
+//# assumes: encode(&map, &mut buf) appends the JSON text of the map (json_text_of: a naming) or fails; base64_simd STANDARD.encode_to_boxed_str is a function of the bytes (b64_enc_spec) that data_encoding::BASE64.decode inverts (two crates, the same standard alphabet with padding); format!("LIT{}", s) is LIT followed by s
+pub uninterp spec fn json_text_of(sm: &SourceMap) -> Seq<u8>;
+pub uninterp spec fn b64_enc_spec(b: Seq<u8>) -> Seq<char>;
+#[verifier::external_body]
+pub proof fn axiom_b64_reader_inverts_writer(b: Seq<u8>)
+    ensures b64_spec(b64_enc_spec(b)) == Some(b)
+{}
+#[verifier::external_body]
+pub fn verif_encode_sm(sm: &SourceMap, buf: &mut Vec<u8>) -> (r: Result<()>)
+    ensures r is Ok ==> final(buf)@ == old(buf)@ + json_text_of(sm)
+{ unimplemented!() }
+#[verifier::external_body]
+pub fn verif_b64_encode(buf: &Vec<u8>) -> (r: Box<str>)
+    ensures r@ == b64_enc_spec(buf@)
+{ unimplemented!() }
+#[verifier::external_body]
+pub fn verif_format_lit_then(lit: &str, s: &Box<str>) -> (r: String)
+    ensures r@ == lit@ + s@
+{ format!("{}{}", lit, s) }
